@@ -116,7 +116,7 @@ def judge(prop, typ, xs, kv, res, case, variant='release', only=None, mo=None, c
     Returns True when the state was non-trivial (n >= 2, sigma > 0, envelope <= 1e-3,
     inside the guard)."""
     bt = base_type(typ)
-    n = len(xs)
+    n = len(xs) if xs is not None else mo.n
     res.count('evaluations')
     ln = val(kv['len'])
     if ln != n:
